@@ -72,6 +72,8 @@ pub enum CloseAns {
     Ok,
     Err,
     Pending,
+    /// an asynchronous close: Pending (self-waking) on the first two polls, then Ok
+    Slow,
 }
 
 #[derive(Debug)]
@@ -82,11 +84,13 @@ pub struct MuxState {
     pub closed: bool,
     pub dropped: bool,
     pub polled: u32,
+    /// address the muxer reports next as `StreamMuxerEvent::AddressChange` (connection migration)
+    pub addr_change: Option<Multiaddr>,
     waker: Option<Waker>,
 }
 impl Default for MuxState {
     fn default() -> Self {
-        MuxState { fail: false, close_answer: CloseAns::Ok, close_polled: 0, closed: false, dropped: false, polled: 0, waker: None }
+        MuxState { fail: false, close_answer: CloseAns::Ok, close_polled: 0, closed: false, dropped: false, polled: 0, addr_change: None, waker: None }
     }
 }
 
@@ -119,6 +123,15 @@ impl StreamMuxer for ScriptMuxer {
                 s.waker = Some(cx.waker().clone());
                 Poll::Pending
             }
+            CloseAns::Slow => {
+                if s.close_polled <= 2 {
+                    cx.waker().wake_by_ref();
+                    Poll::Pending
+                } else {
+                    s.closed = true;
+                    Poll::Ready(Ok(()))
+                }
+            }
         }
     }
     fn poll(self: Pin<&mut Self>, cx: &mut Context<'_>) -> Poll<Result<StreamMuxerEvent, Self::Error>> {
@@ -126,6 +139,9 @@ impl StreamMuxer for ScriptMuxer {
         s.polled += 1;
         if s.fail {
             return Poll::Ready(Err(io::Error::new(io::ErrorKind::ConnectionReset, "scripted muxer failure")));
+        }
+        if let Some(a) = s.addr_change.take() {
+            return Poll::Ready(Ok(StreamMuxerEvent::AddressChange(a)));
         }
         s.waker = Some(cx.waker().clone());
         Poll::Pending
@@ -182,6 +198,8 @@ pub struct TCtl {
     waker: Option<Waker>,
     pub dial_calls: Vec<(Multiaddr, bool)>, // (addr as handed to the transport, accepted?)
     pub log: Option<Log>,
+    /// how muxers created from now on answer `poll_close`
+    pub default_close: Option<CloseAns>,
 }
 impl TCtl {
     fn log_len(&self) -> usize {
@@ -266,7 +284,7 @@ impl TCtl {
     pub fn resolve_ok(&mut self, k: usize, p: u8) -> bool {
         let at = &mut self.attempts[k];
         let Some(tx) = at.tx.take() else { return false };
-        let st = Arc::new(Mutex::new(MuxState::default()));
+        let st = Arc::new(Mutex::new(MuxState { close_answer: self.default_close.unwrap_or(CloseAns::Ok), ..MuxState::default() }));
         at.mux = Some(st.clone());
         at.resolved = Some(Ok(p));
         tx.send(Ok((peer(p), StreamMuxerBox::new(ScriptMuxer(st))))).is_ok()
@@ -334,6 +352,8 @@ pub enum LogEv {
     HandlerGot { f: u8, cid: ConnectionId, n: u32 },
     HandlerPolled { f: u8, cid: ConnectionId },
     HandlerDropped { f: u8, cid: ConnectionId },
+    /// handler got ConnectionEvent::AddressChange
+    HandlerAddr { f: u8, cid: ConnectionId, addr: Multiaddr },
 }
 
 pub type Log = Arc<Mutex<Vec<LogEv>>>;
@@ -511,7 +531,11 @@ impl ConnectionHandler for ProbeHandler {
             w.wake();
         }
     }
-    fn on_connection_event(&mut self, _e: ConnectionEvent<DeniedUpgrade, DeniedUpgrade, (), ()>) {}
+    fn on_connection_event(&mut self, e: ConnectionEvent<DeniedUpgrade, DeniedUpgrade, (), ()>) {
+        if let ConnectionEvent::AddressChange(c) = e {
+            self.log.lock().unwrap().push(LogEv::HandlerAddr { f: self.f, cid: self.cid, addr: c.new_address.clone() });
+        }
+    }
     fn poll_close(&mut self, cx: &mut Context<'_>) -> Poll<Option<u32>> {
         match self.close_pending {
             None => Poll::Ready(None),
